@@ -251,3 +251,6 @@ def run(chk, args):
             c01_wsconn.run_wsconn_part(chk, a2)
         except vlib.Inconclusive as e:
             chk.fail("wsconn part: %s" % e)
+
+
+MANIFEST["note"] += " Extension parts run with the check: WsConn (spec/WsConn: the websocket adapter under resets, --only wsconn) and ConnectLoop (spec/ConnectLoop: the client's collection loop under a fake clock with peer deaths at session ages of seconds to hours, --only connectloop)."
